@@ -1,6 +1,6 @@
 // C10 — implementation side: image files round-trip voxel positions, values and exam information.
 // Drives the REAL STIR API in-process:
-//   InterfileOutputFileFormat (setters / parsed parameter string / OutputFileFormat<...>::default_sptr()),
+//   InterfileOutputFileFormat (setters / parsed parameter string / OutputFileFormat<...>::default_sptr() / registry by name),
 //   InterfileDynamicDiscretisedDensityOutputFileFormat, InterfileParametricDiscretisedDensityOutputFileFormat,
 //   MultiDynamicDiscretisedDensityOutputFileFormat, MultiParametricDiscretisedDensityOutputFileFormat,
 //   OutputFileFormat::write_to_file, read_from_file<DiscretisedDensity<3,float>|DynamicDiscretisedDensity|ParametricVoxelsOnCartesianGrid>,
@@ -14,8 +14,14 @@
 //   rhdr nx ny nz vx vy vz fx fy fz (header strings) -> min(z y x) max(z y x) voxel(z y x) origin(z y x) of the image read back
 //   fsf T given max min                              -> scale factor of stir::find_scale_factor (called directly)
 //   conv T given rowlen n x1..xn                     -> <header scale> | stored numbers (decoded from the data file) | fail
-//   trunc offset size_all bytes file_length          -> ok | err  (does read_from_file succeed on the truncated data file)
-//   exam <fields before>                             -> <fields after the round trip>
+//   trunc offset size_all bytes file_length          -> ok | err  (does read_from_file succeed on the truncated data file; single image)
+//   offs nsets size_all bytes                        -> data offsets announced in the header of an Interfile dynamic / parametric image
+//   ctrunc nm size_all bytes file_length off_1..off_k -> ok | err  (Interfile dynamic / parametric image, data file truncated; nm = 1: modality NM)
+//   mtrunc size_all bytes len_1..len_k               -> ok | err  (Multi image: lengths of the data files of the members, one of them truncated)
+//   exam <fields before> <db answer> <frames>        -> <fields after the round trip>   (header of an Interfile dynamic / parametric image)
+//   exams ...                                        -> same for a single image / member of a Multi image (first time frame only is kept)
+//   examf f ...                                      -> same for member f of an Interfile dynamic image (header's exam information, frame f alone)
+//   examm <fields of member 1 read back> k (start end)*k -> exam information of a Multi dynamic image assembled from its members
 // Oracle (<implfile>.oracle): the property's own statement on the implementation, see `Oracle` below.
 #include "stir_fixtures.h"
 #include "common.h"
@@ -44,6 +50,7 @@
 #include <set>
 #include <sys/stat.h>
 #include <unistd.h>
+#include <fcntl.h>
 
 using namespace stir;
 
@@ -128,7 +135,8 @@ check(bool ok, const std::string& what)
   if (!ok)
     {
       ++g_fails;
-      if (g_fails <= 40)
+      static const long max_lines = std::getenv("C10_MAXFAILS") ? std::atol(std::getenv("C10_MAXFAILS")) : 40; // (debugging aid)
+      if (g_fails <= max_lines)
         std::fprintf(g_orc, "ORACLE-FAIL %s [%s]\n", what.c_str(), g_ctx.c_str());
     }
 }
@@ -152,7 +160,7 @@ static const char* K7_TEXT = "a single image whose exam information has more tha
                              "'quantification units' for the one data set only; InterfileHeader::post_processing expects the scaling factor of all N "
                              "data sets to equal 'quantification units', rejects the header, and read_interfile_image (which does not test for the "
                              "null pointer) goes on with an uninitialised file name: read_from_file throws";
-static const char* K8 = "values:64-bit-integer-output-of-tiny-values:scale-factor-is-a-subnormal-float-and-loses-the-1.01-safety-margin";
+static const char* K8 = "values:scale-factor-is-a-subnormal-float:1.01-safety-margin-lost-and-reciprocal-overflows-under-ffast-math";
 static const char* K6_TEXT = "write_basic_interfile_image_header writes '!type of data := Tomographic' for modality NM, for which "
                              "InterfileHeader::set_type_of_data does not register the key 'data offset in bytes' (KeyParser: unrecognized keyword); "
                              "read_interfile_dynamic_image / read_interfile_parametric_image then read every frame / parameter from offset 0";
@@ -757,14 +765,17 @@ oracle_values(const TypeInfo& t, float given, const Array<3, float>& x, const Ar
     g_cover["values:voxels-with-quotient-beyond-int32"] += beyond_int;
   if (t.maxv > 2147483647.)
     g_cover["values:voxels-of-uint-long-ulong-output-checked-strictly"] += n - beyond_int;
-  if (bad_range && std::fabs(s) < 1.17549435e-38)
-    // the float scale factor is subnormal: it has lost the precision that the safety factor 1.01 relies on
-    known_candidate(K8, std::string("find_scale_factor returns the scale factor as a float: for ") + t.tag + " output of values around " + H(amax)
-                            + " it is subnormal (" + H(s) + "), its rounding error exceeds the safety factor 1.01 and value/scale lies outside the type's range ("
-                            + std::to_string(bad_range) + " voxels)");
-  else
-    check(bad_range == 0, "scaled integer output overflows the chosen type (" + std::to_string(bad_range) + " voxels: value/scale outside the type's range, scale "
-                              + H(s) + ")");
+  if ((bad_range || bad_round || bad_trip) && std::fabs(s) < 1.17549435e-38)
+    { // the float scale factor is subnormal (64-bit output of values around 1e-25, or such a scale_to_write_data requested)
+      known_candidate(K8, std::string("the scale factor is a float: for ") + t.tag + " output of values around " + H(amax) + " it is subnormal (" + H(s)
+                              + "): (a) its rounding error exceeds the safety factor 1.01 of find_scale_factor, value/scale lies outside the type's range ("
+                              + std::to_string(bad_range) + " voxels); (b) STIR's CMake adds -ffast-math to Release builds, convert_range then multiplies by "
+                                "1/scale, which is inf below 2^-128, and a voxel with value 0 becomes 0*inf = NaN and is stored as garbage ("
+                              + std::to_string(bad_round) + " stored numbers, " + std::to_string(bad_trip) + " voxels read back wrong)");
+      bad_range = bad_round = bad_trip = 0;
+    }
+  check(bad_range == 0, "scaled integer output overflows the chosen type (" + std::to_string(bad_range) + " voxels: value/scale outside the type's range, scale "
+                            + H(s) + ")");
   check(bad_neg_raw == 0, "negative value not stored as 0 for unsigned output");
   check(bad_round == 0, "stored integer is not the rounded quotient value/scale (" + std::to_string(bad_round)
                             + " voxels whose quotient fits an int)");
@@ -1289,10 +1300,14 @@ container_case(vh::Rng& rng, const std::string& dir, long idx, bool parametric, 
       kinds.push_back(kind);
       g_cover[std::string("ckind:") + KIND_NAMES[kind]]++;
     }
-  const float given = gen_scale(rng, t, *sets[rng.range(0, nsets - 1)], scale_setting);
-  int how = rng.range(0, 3);
-  if (how == 3 && !(t.id == NumericType::FLOAT && little_req == native_little && given == 0.F))
-    how = rng.range(0, 2);
+  float given = gen_scale(rng, t, *sets[rng.range(0, nsets - 1)], scale_setting);
+  int how = rng.range(0, 2);
+  // the default formats write float in the native order with automatic scale: used for half of the cases that ask for that
+  if (t.id == NumericType::FLOAT && little_req == native_little && rng.coin())
+    {
+      how = 3;
+      given = 0.F;
+    }
   if (how == 0 && multi)
     how = 1; // the Multi formats have no setter for the format of the members
   // with how == 3 and Multi the default format of the members is used: Interfile, float, native order
@@ -1617,7 +1632,7 @@ list_registry(const std::string& what)
       for (char c : name)
         if (c != ' ' && c != '\t' && c != '\r')
           k += c;
-      if (!k.empty())
+      if (!k.empty() && k != "None") // ("None" is the registry's name for the null pointer)
         g_cover["registry:" + what + ":" + k] = 1;
     }
 }
@@ -1637,6 +1652,17 @@ main(int argc, char** argv)
   g_orc = std::fopen((std::string(argv[4]) + ".oracle").c_str(), "w");
   if (!g_ops || !g_out || !g_orc)
     return 2;
+  // STIR's error messages can contain bytes that are not text (read_interfile_image prints an uninitialised file name when
+  // the header does not parse): keep them out of the pipe of the caller, in <implfile>.stderr
+  if (!std::getenv("C10_DEBUG"))
+    {
+      const int fd = ::open((std::string(argv[4]) + ".stderr").c_str(), O_WRONLY | O_CREAT | O_TRUNC, 0666);
+      if (fd >= 0)
+        {
+          ::dup2(fd, 2);
+          ::close(fd);
+        }
+    }
   // scratch directory next to the ops file: <build/out>/c10/<tier>-<seed>-<pid>
   std::string outdir = argv[3];
   const std::size_t slash = outdir.find_last_of('/');
